@@ -18,6 +18,9 @@ MENU["count>=2&min<0"] = ("COUNT(*) >= 2 AND MIN(v) < 0", {"o": "and", "a": MENU
 MENU["max>=3|count>=3"] = ("MAX(v) >= 3 OR COUNT(*) >= 3", {"o": "or", "a": MENU["max>=3"][1], "b": dict(MENU["count>=2"][1], lit=3)})
 MENU["min<0&count>=2"] = ("MIN(v) < 0 AND COUNT(*) >= 2", {"o": "and", "a": MENU["min<0"][1], "b": MENU["count>=2"][1]})
 MENU["sum>3|count>=3"] = ("SUM(v) > 3 OR COUNT(*) >= 3", {"o": "or", "a": MENU["sum>3"][1], "b": dict(MENU["count>=2"][1], lit=3)})
+MENU["band:sum"] = ("SUM(v) >= 3 AND SUM(v) < 8", {"o": "and", "a": dict(MENU["sum>3"][1], op=">=", lit=3), "b": dict(MENU["sum>3"][1], op="<", lit=8)})
+MENU["tier:sum,count"] = ("SUM(v) >= 6 OR COUNT(*) >= 3 AND SUM(v) >= 2", {"o": "or", "a": dict(MENU["sum>3"][1], op=">=", lit=6),
+                          "b": {"o": "and", "a": dict(MENU["count>=2"][1], lit=3), "b": dict(MENU["sum>3"][1], op=">=", lit=2)}})
 MENU["count>=3|max>=3&min<0"] = ("COUNT(*) >= 3 OR MAX(v) >= 3 AND MIN(v) < 0",
                                  {"o": "or", "a": dict(MENU["count>=2"][1], lit=3), "b": {"o": "and", "a": MENU["max>=3"][1], "b": MENU["min<0"][1]}})
 SELECTS = [  # (select list, aggs) : with / without the trigger's aggregates among the selected ones
@@ -57,7 +60,23 @@ def scenario(pred, hist, sel_i, rng, missing_style, case):
         rows.append(row)
     sql = "SELECT g, %s FROM stream GROUP BY g, GLOBAL WINDOW TRIGGER WHEN %s" % (sel, sqlp)
     meta = {"fam": "batch", "carrier": "global", "n": 0, "gcols": ["g"], "gout": ["g"], "aggs": aggs, "pred": lit_scaled(ast)}
-    return {"meta": meta, "sql": sql, "rows": rows}
+    sc = {"meta": meta, "sql": sql, "rows": rows}
+    if rng.random() < 0.3:      # the aggregated column under another name (names ending in "or" / "and", a keyword-like name)
+        sc = rename_col(sc, rng.choice(["sensor", "error", "floor", "brand", "vand", "motor_rpm", "orv"]))
+    return sc
+
+
+def rename_col(sc, name):
+    import re
+    def ren(x):
+        if isinstance(x, dict):
+            return {k: (name if (k == "c" and v == "v") else ren(v)) for k, v in x.items()}
+        if isinstance(x, list):
+            return [ren(y) for y in x]
+        return x
+    sql = re.sub(r"\(\s*v\s*\)", "(%s)" % name, sc["sql"])
+    rows = [{(name if k == "v" else k): v for k, v in r.items()} for r in sc["rows"]]
+    return {"meta": ren(sc["meta"]), "sql": sql, "rows": rows}
 
 
 def run(tier):
@@ -67,6 +86,8 @@ def run(tier):
     res.cov["exhaustive"] = True
     scen = []
     for pi, pred in enumerate(MENU):
+        if pred in ("band:sum", "tier:sum,count"):      # seeded runs only (not in the GlobalWin menu)
+            continue
         maxrows = 4 if quick else 5
         cfg = 'SPECIFICATION Spec\nCONSTANTS Groups = {"a","b"} RawVals = {0, 2, 4} Off = 1 MaxRows = %d Pred = "%s" Emit = TRUE\nINVARIANTS EmitScenario\nCHECK_DEADLOCK FALSE\n' % (maxrows, pred)
         r = vlib.tlc(WIN, "GlobalWin", cfg, workers=1, timeout=600)
@@ -85,7 +106,7 @@ def run(tier):
         L = rng.choice([8, 12, 20])
         groups = ["a", "b", "c", "d"][:rng.choice([1, 2, 4])]
         hist = [{"g": rng.choice(groups), "v": rng.choice([NUL, -1, -1, 0, 1, 2, 3, 5])} for _ in range(L)]
-        if pred in ("max>=3|count>=3", "sum>3|count>=3"):      # see GlobalWin.LeftNullable: NULL values only in the model-generated behaviours
+        if pred in ("max>=3|count>=3", "sum>3|count>=3", "band:sum", "tier:sum,count"):      # see GlobalWin.LeftNullable: NULL values only in the model-generated behaviours
             for h in hist:
                 if h["v"] == NUL:
                     h["v"] = 1
@@ -107,7 +128,7 @@ def run(tier):
                        "(single comparisons, AND, OR, OR-of-AND), 3 SELECT shapes (trigger aggregates selected / not selected / differently spelled), NULL vs missing, "
                        "replayed in lock-step on the real engine, plus seeded longer runs with up to 4 groups; distinct = distinct (SQL, rows)")
     res.assumptions = ASSUME
-    for pred in (["count>=3|max>=3&min<0", "avg>=2"] if quick else list(MENU)):
+    for pred in (["count>=3|max>=3&min<0", "avg>=2"] if quick else [m for m in MENU if ":" not in m]):
         mr = 5 if quick else 6
         cfg = 'SPECIFICATION Spec\nCONSTANTS Groups = {"a","b"} RawVals = {0, 2, 4} Off = 1 MaxRows = %d Pred = "%s" Emit = FALSE\nINVARIANTS FiresExactly Conservation NoFireWhileFalse\nCHECK_DEADLOCK FALSE\n' % (mr, pred)
         seqfam.model(res, WIN, "GlobalWin", cfg, "GlobalWin", {"Pred": pred, "MaxRows": mr, "Groups": 2, "Vals": ["NULL", -1, 1, 3]})
